@@ -34,6 +34,9 @@ def draw_config(rng, mode="bounded", allow_restart=False, faults=True):
     if rng.random() < 0.25:
         # legal but unusual explicit ids: 0 and the empty string (falsy)
         c["jobids"] = c["jobids"] + rng.choice([[0], [""], [0, ""], [2], [3, 2], [0, 1], [3, 4], [2, 3, 4]])
+    if rng.random() < 0.1:
+        # channel names are just JSON values used as dictionary keys: numbers are as good as strings
+        c["channels"] = [7, 8, 9][: len(c["channels"])]
     c["p_noid"] = rng.choice([0.0, 0.2, 0.5])
     c["prios"] = rng.choice([[0], [0, 1], [0, 1, 2], [2, 1, 0, 0]])
     # always explicit: the defaults (120 s, 3600 s) are implementation constants, not properties
